@@ -100,7 +100,7 @@ def iter_order(case, rg):
     n = case["n"]
     if case["path"] == "mem":
         return np.arange(n)
-    m = case["max_prior"] or n
+    m = min(n, case["max_prior"] or n)      # a budget beyond the library size is limited by the library
     if case["randomize"]:
         ch = rg.calls("choice")
         if len(ch) != 1:
